@@ -24,11 +24,12 @@ pub static PROP: Prop = Prop {
     fixed,
     replay: Some(replay),
     breadcrumb: false,
+    fuzz: &[],
 };
 
 fn budget(t: Tier) -> Budget {
     Budget {
-        cases: t.pick(700, 40_000),
+        cases: t.pick(5_000, 60_000),
         max_len: 48,
         shards: 16,
         dual_profile: false,
